@@ -69,7 +69,7 @@ func run(t *testing.T, typ uint16) {
 	s := rt.S(gen.TypeName(typ)).SetRule("honest token of the type; every single-bit variant of its encoding (exhaustive per drawn run); the same token under another key; the token given to the issuer of the other type with and without rewriting the type field; field-boundary moves, truncated/extended/empty authenticator; oracle: Verify==nil iff authenticator equals circl FullEvaluate of type||nonce||context||key id as carried in the token. non-trivial = variant differs from the honest token; distinct by (type, bytes, class)")
 	other := uint16(6 - typ) // 1 <-> 5
 	suiteOf := map[uint16]oprf.Suite{1: oprf.SuiteP384, 5: oprf.SuiteRistretto255}
-	rt.Check(t, 2, 320, func(t *rapid.T) {
+	rt.Check(t, 6, 480, func(t *rapid.T) {
 		defer rt.Entropy(gen.Seed().Draw(t, "entropy"))()
 		sess, err := gen.NewSession(t, typ, gen.SessionOpts{MaxBatch: 2})
 		if err != nil {
